@@ -1,3 +1,8 @@
+// Under `--cfg divan_verif` every `std::…` path in this file resolves to the
+// simulator's drop-in `std` (see /verif/DESIGN.md §3, hook H4).
+#[cfg(all(divan_verif, not(miri)))]
+use ::dsim::shim as std;
+
 use std::{
     cell::UnsafeCell,
     fmt,
@@ -1132,6 +1137,11 @@ impl<'a> BenchContext<'a> {
 
             (interval, saved_alloc_info)
         }
+    }
+
+    #[cfg(divan_verif)]
+    pub(crate) fn verif_parts(&self) -> (&SampleCollection, &CounterCollection) {
+        (&self.samples, &self.counters)
     }
 
     #[inline]
